@@ -160,3 +160,129 @@ def run(S):
     C.check_function(S, 'Levelset.sphere', Levelset.sphere, OD(x=xs, xLoc=xl, yLoc=yl, R=R), None, OD(
         distance_to_centre_minus_radius=lambda a, r: [pand(r[i] + a.R >= 0, peq((r[i] + a.R) * (r[i] + a.R),
                                                       (a.x[i][0] - a.xLoc) * (a.x[i][0] - a.xLoc) + (a.x[i][1] - a.yLoc) * (a.x[i][1] - a.yLoc), 1e-12)) for i in range(2)]))
+
+    _mortar(S, MortarContact)
+    bounded(S)
+
+
+# ---------------------------------------------------------------------------
+# mortar integrals
+# ---------------------------------------------------------------------------
+
+def _mortar(S, MC):
+    from optimism import QuadratureRule
+    S.function('MortarContact.smooth_linear', MC.smooth_linear, 'J')
+    S.function('MortarContact.integrate_with_active_mortar', MC.integrate_with_active_mortar, 'J')
+    q = 'MortarContact.smooth_linear'
+    a, b, l = tm.var('xi1'), tm.var('xi2'), tm.var('l')
+    sa = J.scalar(J.symbolic_call(MC.smooth_linear, a, l))
+    sb = J.scalar(J.symbolic_call(MC.smooth_linear, b, l))
+    hy = [l > 0, 2 * l < 1, a >= 0, a <= 1, b >= 0, b <= 1]
+    S.add(q + '/monotone_non_decreasing_on_the_unit_interval', hy + [a <= b], sa <= sb)
+    S.add(q + '/within_one_smoothing_length_below_the_identity', hy, tm.and_(a - sa >= 0, a - sa <= l))
+    S.add(q + '/length_of_an_interval_changes_by_at_most_one_smoothing_length', hy + [a <= b], tm.and_(sb - sa >= 0, sb - sa - (b - a) <= l, (b - a) - (sb - sa) <= l))
+    S.add(q + '/end_values', hy, tm.and_(tm.implies(tm.eq(a, 0), tm.eq(sa, 0)), tm.implies(tm.eq(a, 1), tm.eq(sa, 1 - l))))
+    # C1 at both switches
+    g = J.scalar(J.symbolic_call(jax.grad(MC.smooth_linear), a, l))
+    S.add(q + '/slope_between_zero_and_one', hy, tm.and_(g >= 0, g <= 1))
+    S.canary(q, hy)
+    # the active integral: weights from the smoothed overlap, uninterpreted non-negative integrand
+    q2 = 'MortarContact.integrate_with_active_mortar'
+    xiA, xiB, gg = J.sym_array('xiA', (2,)), J.sym_array('xiB', (2,)), J.sym_array('g', (2,))
+    LA, LB = tm.var('lengthA'), tm.var('lengthB')
+    f = lambda x1, x2, g_: J.uf('f', x1, x2, g_)
+    val = J.scalar(J.symbolic_call(lambda xa, xb, g_, la, lb, l_: MC.integrate_with_active_mortar(xa, xb, g_, la, lb, f, l_), xiA, xiB, gg, LA, LB, l))
+    apps = [t for t in tm.apps_of(val) if t.data == 'f']
+    hy2 = [l > 0, 2 * l < 1, LA > 0, LB > 0, xiA[0] >= 0, xiA[0] <= xiA[1], xiA[1] <= 1] + [tm.and_(xiB[i] >= 0, xiB[i] <= 1) for i in range(2)]
+    S.add(q2 + '/non_negative_for_a_non_negative_integrand', hy2 + [t >= 0 for t in apps], val >= 0)
+    # caller against the callee's contract: smooth_linear replaced by an uninterpreted function with the clauses proved above
+    real_smooth = MC.smooth_linear
+    MC.smooth_linear = lambda xi, l_: J.uf('smooth', xi, l_)
+    try:
+        one = J.scalar(J.symbolic_call(lambda xa, xb, g_, la, lb, l_: MC.integrate_with_active_mortar(xa, xb, g_, la, lb, lambda x1, x2, g3: 1.0 + 0.0 * g3, l_), xiA, xiB, gg, LA, LB, l))
+    finally:
+        MC.smooth_linear = real_smooth
+    sm = lambda x: tm.app('smooth', (x, l))
+    contract = []
+    for (x0, x1) in ((xiA[0], xiA[1]), (xiB[0], xiB[1]), (xiB[1], xiB[0])):
+        d_s, d_x = sm(x1) - sm(x0), x1 - x0
+        contract.append(tm.implies(x0 <= x1, tm.and_(d_s >= 0, d_s - d_x <= l, d_x - d_s <= l)))
+    Lo = tm.var('overlapLength')
+    # parallel segments: both parametrisations measure the same overlap length Lo = LA (a1-a0) = LB |b1-b0|
+    par = [tm.eq(Lo, LA * (xiA[1] - xiA[0])), tm.eq(Lo, LB * tm.abs_(xiB[1] - xiB[0]))]
+    S.add(q2 + '/unit_integrand_on_parallel_segments_gives_the_overlap_length_within_the_smoothing_length_times_the_mean_segment_length', hy2 + par + contract,
+          tm.and_(one - Lo <= l * (LA + LB) / 2, Lo - one <= l * (LA + LB) / 2))
+    S.add(q2 + '/vanishes_when_the_overlap_interval_is_a_single_point', hy2 + [tm.eq(xiA[0], xiA[1]), tm.eq(xiB[0], xiB[1])], tm.eq(val, 0))
+    S.canary(q2, hy2)
+
+
+def bounded(S):
+    """bounded (labelled bounded): integrate_with_mortar on random segment pairs (the intersection routine selects end points with
+    NaN markers and nanargmin/nanargmax, outside the deductive front end): rigid-motion invariance, zero without overlap,
+    non-negativity, overlap length / gap area of parallel segments within the smoothing length, end points inside the smoothing zones"""
+    from optimism.contact import MortarContact as MC
+    rng = onp.random.default_rng(S.seed + 1616)
+    n = 60 if S.tier == 'quick' else 600
+    fails, cases = [], 0
+    integ = jax.jit(lambda eA, eB, l: (MC.integrate_with_mortar(eA, eB, MC.compute_average_normal, lambda xa, xb, g: 1.0 + 0.0 * g, l),
+                                       MC.integrate_with_mortar(eA, eB, MC.compute_average_normal, lambda xa, xb, g: g, l),
+                                       MC.integrate_with_mortar(eA, eB, MC.compute_average_normal, lambda xa, xb, g: g * g * (1.0 - xa), l)))
+    for k in range(n):
+        cases += 1
+        l = float(rng.choice([1e-7, 1e-3, 0.03]))
+        LA, LB = rng.uniform(0.3, 2.0), rng.uniform(0.3, 2.0)
+        gap = rng.uniform(0.05, 0.5)
+        kind = ('partial', 'nested', 'none', 'touching', 'end-in-upper-smoothing-zone', 'end-in-lower-smoothing-zone')[k % 6]
+        # A along +x at y=0 (normal -y ... the pair faces each other): B along -x at y=-gap
+        a0, a1 = 0.0, LA
+        if kind == 'partial':
+            b_lo = rng.uniform(0.2, 0.8) * LA
+            b_hi = b_lo + LB
+        elif kind == 'nested':
+            LB = rng.uniform(0.2, 0.6) * LA
+            b_lo = rng.uniform(0.1, 0.3) * LA
+            b_hi = b_lo + LB
+        elif kind == 'none':
+            b_lo = LA + rng.uniform(0.05, 1.0)
+            b_hi = b_lo + LB
+        elif kind == 'touching':
+            b_lo = LA
+            b_hi = b_lo + LB
+        elif kind == 'end-in-upper-smoothing-zone':
+            b_lo = -rng.uniform(0.1, 0.5)
+            b_hi = (1 - rng.uniform(0.1, 0.9) * l) * LA
+            LB = b_hi - b_lo
+        else:
+            b_lo = rng.uniform(0.1, 0.9) * l * LA
+            b_hi = LA + rng.uniform(0.1, 0.5)
+            LB = b_hi - b_lo
+        eA = onp.array([[a0, 0.0], [a1, 0.0]])
+        eB = onp.array([[b_hi, -gap], [b_lo, -gap]])
+        Lo = max(0.0, min(a1, b_hi) - max(a0, b_lo))
+        th = rng.uniform(0, 2 * onp.pi)
+        R = onp.array([[onp.cos(th), -onp.sin(th)], [onp.sin(th), onp.cos(th)]])
+        t = rng.uniform(-3, 3, 2)
+        pr = []
+        try:
+            v1, vg, vq = [float(x) for x in integ(jnp.asarray(eA), jnp.asarray(eB), l)]
+            w1, wg, wq = [float(x) for x in integ(jnp.asarray(eA @ R.T + t), jnp.asarray(eB @ R.T + t), l)]
+            tol = l * (LA + LB) / 2 * (1 + 1e-6) + 1e-12
+            if not all(onp.isfinite([v1, vg, vq, w1, wg, wq])):
+                pr.append('non-finite integral')
+            if abs(v1 - w1) > 1e-8 * (1 + abs(v1)) + 2 * tol * (kind.startswith('end-in')) or abs(vg - wg) > 1e-8 * (1 + abs(vg)) + 2 * tol * gap * (kind.startswith('end-in')):
+                pr.append('not invariant under a common rigid motion: %.12g vs %.12g' % (v1, w1))
+            if kind == 'none' and (abs(v1) > 1e-12 or abs(vg) > 1e-12):
+                pr.append('non-overlapping segments give %.3g' % v1)
+            if v1 < -1e-12 or vq < -1e-12:
+                pr.append('negative integral of a non-negative integrand: %.6g, %.6g' % (v1, vq))
+            if abs(v1 - Lo) > tol:
+                pr.append('overlap length %.9g measured as %.9g (smoothing allowance %.3g)' % (Lo, v1, tol))
+            if abs(abs(vg) - gap * Lo) > tol * gap + 1e-12:
+                pr.append('gap area %.9g measured as %.9g' % (gap * Lo, abs(vg)))
+        except Exception as ex:
+            pr.append('%s: %s' % (type(ex).__name__, str(ex)[:150]))
+        if pr:
+            fails.append(dict(input=dict(case=k, seed=S.seed + 1616, kind=kind, smoothing=l, edgeA=eA.tolist(), edgeB=eB.tolist(), rotation=th, translation=t.tolist()), observed=pr[:3]))
+    S.bounded_check('MortarContact/bounded-pair-integrals-on-parallel-segments',
+                    'integrate_with_mortar on parallel facing segments (partial, nested, no overlap, touching, an end point inside either smoothing zone; smoothing 1e-7, 1e-3, 0.03): invariant under a common rigid motion, zero without overlap, non-negative for non-negative integrands, overlap length and gap area within the smoothing allowance',
+                    '%d random pairs' % n, cases, fails)
